@@ -179,6 +179,7 @@ func main() {
 	tfile := flag.String("targets", "translator/targets.json", "targets file")
 	out := flag.String("out", "build/gen", "output directory")
 	only := flag.String("only", "", "comma-separated property ids or group ids (default: all groups)")
+	effects := flag.Bool("effects", false, "static may-write analysis of the exported API: writes <out>/Gen_effects.v and effects.json (C20 structural tie)")
 	flag.Parse()
 
 	raw, err := os.ReadFile(*tfile)
@@ -201,6 +202,9 @@ func main() {
 	fset := token.NewFileSet()
 	ld := &Loader{fset: fset, repo: *repo, module: tg.Module, std: importer.ForCompiler(fset, "source", nil),
 		pkgs: map[string]*Pkg{}, tcache: map[string]*types.Package{}}
+	if *effects {
+		os.Exit(runEffects(ld, *repo, *out))
+	}
 	tr := newTr(ld)
 	rep := Report{Translator: Version, Repo: *repo, OK: true}
 
